@@ -447,6 +447,11 @@ func (ex *Exec) buildUnitOrds(fn *ssa.Function) {
 					key := chain + fmt.Sprintf("%p", sx)
 					ex.unitOrd[key] = ex.unitCnt["mapupdate"]
 					ex.unitSeq = append(ex.unitSeq, unitCall{key: key, name: "mapupdate"})
+				case *ssa.MakeChan:
+					ex.unitCnt["makechan"]++
+					key := chain + fmt.Sprintf("%p", sx)
+					ex.unitOrd[key] = ex.unitCnt["makechan"]
+					ex.unitSeq = append(ex.unitSeq, unitCall{key: key, name: "makechan"})
 				case *ssa.Send:
 					ex.unitCnt["chansend"]++
 					key := chain + fmt.Sprintf("%p", sx)
@@ -867,7 +872,14 @@ func (ex *Exec) enterBlock(f *Frame, st *State, b, prev *ssa.BasicBlock) bool {
 				if !seen {
 					goal = "false"
 				}
-				ex.oblige(f, st, "assert", fmt.Sprintf("%s%s#everyiter:loop%d:%s", ex.name, f.prefix, ld.ord, pat), goal, b.Instrs[0].Pos(),
+				pos := f.fn.Pos()
+				for _, in := range b.Instrs {
+					if in.Pos().IsValid() {
+						pos = in.Pos()
+						break
+					}
+				}
+				ex.oblige(f, st, "assert", fmt.Sprintf("%s%s#everyiter:loop%d:%s", ex.name, f.prefix, ld.ord, pat), goal, pos,
 					fmt.Sprintf("every completed iteration of loop#%d passes a site of %s (no path around it back to the loop head)", ld.ord, pat))
 			}
 		}
@@ -1212,6 +1224,11 @@ func (ex *Exec) step(f *Frame, st *State, in ssa.Instruction) bool {
 			st.assume(app(w.st.declare("alloc_here", []string{sortU}, sortBool), u))
 		}
 		f.regs[v] = VOpaque{T: u}
+		if mc, isChan := in.(*ssa.MakeChan); isChan {
+			// pseudo-callee "makechan": arg0 = the capacity the channel is made with
+			st.sites = append(st.sites, "makechan")
+			ex.callAsserts(f, st, mc, "makechan", 0, map[string]Binding{"arg0": {V: ex.val(f, st, mc.Size), T: mc.Size.Type()}}, "")
+		}
 	case *ssa.MakeClosure:
 		var bs []Val
 		for _, b := range x.Bindings {
